@@ -69,7 +69,8 @@ PROPS.update({
         "note": PROOF_NOTE,
         "technique": "Lean 4 fold-invariant proof over label sequences + correspondence on captured tracing dead-letter events",
         "monitors": ["C13"],
-        "corr": corr(["eager", "shutdown", "timeouts", "burst", "mixed", "handles"]),
+        "corr": corr(["flood", "eager", "shutdown", "timeouts", "burst", "mixed", "handles"]),
+        "extra": ["stress"],
         "extract_items": [],
         "assumptions": COMMON_ASSUME + ["dead-letter operation labels are compared by family (tell/ask), DESIGN.md §7/C13"],
     },
